@@ -22,7 +22,7 @@ CHECKS: dict[str, tuple[str, str, str, str]] = {
 }
 
 # checks reviewed by the coordinator (quiet on the unchanged tree at several seeds, mutants caught); only these are claimed
-ACCEPTED = ["C02", "C07", "C10", "C12", "C13", "C15", "C18", "C20"]
+ACCEPTED = ["C01", "C02", "C03", "C07", "C10", "C12", "C13", "C15", "C17", "C18", "C20"]
 
 LEVELS = {"C15": "fault_enumeration", "C20": "fault_enumeration"}
 
